@@ -5,8 +5,18 @@ import json
 from ..driver import Part
 from .. import common as C
 
+from .. import srcfacts
+
+_FACTS = srcfacts.inbox_facts()
+_NAMES = {"stopped": "Stopped", "starting": "Starting", "idle": "Idle", "running": "Running"}
+# the numbering of the inbox states and the PopN batch bound are read from actor/inbox.go, so a
+# renumbering or another batch size moves the model's parameters with the code
 ST = {0: "Stopped", 1: "Starting", 2: "Idle", 3: "Running"}
-BOUND = 4096
+if _FACTS.get("states") and set(_FACTS["states"]) == set(_NAMES):
+    ST = {v: _NAMES[k] for k, v in _FACTS["states"].items()}
+BOUND = _FACTS.get("messageBatchSize") or 4096
+if not 1 <= BOUND < 5000:
+    BOUND = 4096
 
 
 def label_coq(e):
@@ -80,6 +90,7 @@ class InboxSched(Part):
         for k, (senders, starter, cap, mode, mx) in enumerate(self.configs(tier)):
             out.append({"input": {"cap": cap, "senders": senders, "starter": starter, "mode": mode,
                                   "max_execs": mx, "keep": 40 if mode == "dfs" else 60,
+                                  "idle": [k for k, v in ST.items() if v == "Idle"][0],
                                   "seed": rng.randrange(1 << 30)},
                         "class": mode})
         return out
@@ -110,6 +121,7 @@ class InboxSched(Part):
             distinct_terminal_observations=sum(len(o.get("terminals") or []) for o in obs),
             traces_validated_against_impl=sum(len(o.get("samples") or []) for o in obs),
             exhaustive_configs=sum(1 for i, o in zip(inputs, obs) if i["input"]["mode"] == "dfs" and o.get("exhaustive")),
+            source_facts=_FACTS,
             configs=[{"senders": i["input"]["senders"], "starter": i["input"]["starter"], "cap": i["input"]["cap"],
                       "mode": i["input"]["mode"], "executions": o.get("executions"), "states": o.get("states"),
                       "exhaustive": o.get("exhaustive")} for i, o in zip(inputs, obs)])
